@@ -139,7 +139,7 @@ COL_POOL = [("name", "text"), ("email", "text"), ("age", "integer"), ("score", "
 SCRATCH_POOL = ["scratch", "tmp_import", "new_scratch", "staging", "new_staging", "backfill_tmp"]
 
 # operation kinds that only the hand writer can produce (atlas never plans them)
-HAND_ONLY = {"replace_inplace", "rebuild_neighbor", "rename_drop", "rename_first_rebuild", "temp_table", "temp_column", "replace_table", "drop_cols_alter", "drop_cols_rebuild_variant", "readd_column", "recreate_table"}
+HAND_ONLY = {"rebuild_same_table", "replace_inplace", "rebuild_neighbor", "rename_drop", "rename_first_rebuild", "temp_table", "temp_column", "replace_table", "drop_cols_alter", "drop_cols_rebuild_variant", "readd_column", "recreate_table"}
 
 ADDITIVE = {"add_table", "add_column", "add_index", "add_column_rebuild"}
 TEMPORARY = {"temp_table", "temp_column"}
@@ -212,6 +212,13 @@ def apply_op(schema, op):
         t.indexes = [i for i in t.indexes if not (set(i.cols) & set(op["cols"]))]
         if op.get("intr"):
             apply_op(schema, op["intr"])
+    elif k == "rebuild_same_table":
+        t = schema.tables[op["t"]]
+        gone = set(op["cols"]) | ({op["c2"]} if op["then"] == "alter" else set())
+        t.cols = [c for c in t.cols if c.name not in gone]
+        t.indexes = [i for i in t.indexes if not (set(i.cols) & gone)]
+        if op["then"] == "drop_table":
+            del schema.tables[op["t"]]
     elif k == "replace_inplace":
         if op.get("col") is not None:
             schema.tables[op["t"]].cols.append(copy.deepcopy(op["col"]))
@@ -245,7 +252,7 @@ def apply_op(schema, op):
         raise ValueError(k)
 
 
-REBUILDS = {"replace_inplace", "drop_cols", "drop_cols_rebuild", "drop_cols_rebuild_variant", "add_column_rebuild", "rebuild_neighbor"}
+REBUILDS = {"rebuild_same_table", "replace_inplace", "drop_cols", "drop_cols_rebuild", "drop_cols_rebuild_variant", "add_column_rebuild", "rebuild_neighbor"}
 
 
 def rebuild_tmp(op):
@@ -306,6 +313,21 @@ def hand_sql(schema, op, rng):
                 return st[:2] + ["UPDATE %s SET %s = %s" % (q("new_" + op["t"]), q("id"), q("id"))] + st[2:]
             raise ValueError(v)
         return rebuild_sql(bt, at, "new_" + op["t"])
+    if k == "rebuild_same_table":
+        # a table copy of t (the shape `migrate diff` writes) plus, in the same file and on the same table, an earlier
+        # ADD COLUMN of a column the copy leaves out and / or a later DROP COLUMN of a column the copy kept / DROP TABLE
+        bt = schema.tables[op["t"]]
+        mid = schema.clone()
+        apply_op(mid, {"op": "drop_cols_rebuild", "t": op["t"], "cols": op["cols"]})
+        out = []
+        if op.get("pre_add") is not None:
+            out.append("ALTER TABLE %s ADD COLUMN %s" % (q(op["t"]), col_sql(op["pre_add"])))
+        out += rebuild_sql(bt, mid.tables[op["t"]], "new_" + op["t"])
+        if op["then"] == "alter":
+            out.append("ALTER TABLE %s DROP COLUMN %s" % (q(op["t"]), q(op["c2"])))
+        elif op["then"] == "drop_table":
+            out.append("DROP TABLE %s" % q(op["t"]))
+        return out
     if k == "replace_inplace":
         # drop-and-replace with the temp-name convention, no row is copied: CREATE new_t (same or more columns), DROP t, RENAME
         after = schema.clone()
@@ -414,6 +436,7 @@ COMMENTS = {"add_table": "create table", "add_column": "add column", "add_index"
             "drop_cols_alter": "drop columns", "drop_cols": "rebuild without the columns", "drop_cols_rebuild": "rebuild without the columns",
             "drop_cols_rebuild_variant": "rebuild without the columns", "add_column_rebuild": "rebuild with the new column",
             "temp_table": "scratch table", "temp_column": "scratch column", "replace_table": "replace table",
+            "rebuild_same_table": "copy the table to its new layout and finish the clean-up",
             "replace_inplace": "replace the table by an empty one of the new layout",
             "rebuild_neighbor": "rebuild without the columns, and clean up", "rename_drop": "move the table aside and drop it",
             "rename_first_rebuild": "rebuild without the columns (rename first)",
@@ -451,7 +474,7 @@ def render_hand_file(schema, ops, rng, header=True, eol=None, bom=False, tx=None
         ss = hand_sql(cur, op, rng)
         stmts.append((op, ss))
         apply_op(cur, op)
-    needs_pragma = style == "pragmas" and any(op["op"] in ("drop_cols", "drop_cols_rebuild", "drop_cols_rebuild_variant", "add_column_rebuild", "drop_table", "replace_table", "recreate_table", "rebuild_neighbor", "rename_drop", "rename_first_rebuild", "replace_inplace") for op, _ in stmts)
+    needs_pragma = style == "pragmas" and any(op["op"] in ("drop_cols", "drop_cols_rebuild", "drop_cols_rebuild_variant", "add_column_rebuild", "drop_table", "replace_table", "recreate_table", "rebuild_neighbor", "rename_drop", "rename_first_rebuild", "replace_inplace", "rebuild_same_table") for op, _ in stmts)
     if needs_pragma:
         chunks.append("PRAGMA foreign_keys = off;\n")
     if tx:
@@ -579,6 +602,31 @@ def make_op(rng, schema, kind, writer, protect=(), target=None):
                 op["variant"] = rng.choice(["altname", "noinsert", "extra"])
             if how in REBUILDS and rebuild_tmp(op) in schema.tables:
                 continue
+            return op
+        return None
+    if kind in ("rebuild_then_alter_drop", "rebuild_then_drop_table", "addcol_then_rebuild_omits"):
+        rng.shuffle(names)
+        for n in names:
+            t = schema.tables[n]
+            if "new_" + n in schema.tables or getattr(t, "module", None):
+                continue
+            plain = [c.name for c in t.cols if c.gen is None and c.name != "id"]
+            cols = [rng.choice(plain)] if plain and rng.random() < 0.5 else []
+            op = {"op": "rebuild_same_table", "t": n, "cols": cols, "then": None, "c2": None, "pre_add": None, "vonly": False}
+            if kind == "rebuild_then_alter_drop":
+                free = [c for c in plain if c not in cols and not any(c in i.cols for i in t.indexes)]
+                if not free:
+                    continue
+                op.update(then="alter", c2=rng.choice(free))
+            elif kind == "rebuild_then_drop_table":
+                if len(names) < 2:
+                    continue
+                op.update(then="drop_table")
+            else:
+                used = {c.name for c in t.cols}
+                op["pre_add"] = Col(rng.choice([x for x in ("tmp_c", "backfill", "legacy_ref") if x not in used] or ["tmp_zz"]), "integer", True)
+                if rng.random() < 0.3 and [c for c in plain if c not in cols and not any(c in i.cols for i in t.indexes)]:
+                    op.update(then="alter", c2=rng.choice([c for c in plain if c not in cols and not any(c in i.cols for i in t.indexes)]))
             return op
         return None
     if kind == "replace_inplace":
@@ -812,7 +860,8 @@ HAND_KINDS = ["add_table", "add_column", "add_index", "add_column_rebuild", "dro
               "drop_col_variant", "drop_virtual", "temp_table", "temp_table", "temp_column", "replace_table", "mixed", "mixed_additive_temp", "mixed_big",
               "readd_alter", "readd_rebuild", "recreate_table", "drop_vmix_before", "drop_vmix_after", "rebuild_intruder",
               "rebuild_neighbor_before", "rebuild_neighbor_after0", "rebuild_neighbor_after1", "rename_drop", "rename_chain", "rename_first_rebuild",
-              "nolint_some", "nolint_all", "nolint_wrong", "nolint_file", "replace_inplace"]
+              "nolint_some", "nolint_all", "nolint_wrong", "nolint_file", "replace_inplace",
+              "rebuild_then_alter_drop", "rebuild_then_drop_table", "addcol_then_rebuild_omits"]
 
 # step kinds forced into an evolution (one per evolution, cycling over the evolution number), so that every
 # run -- whatever the seed -- contains each of these shapes several times
@@ -822,6 +871,7 @@ FOCUS = [("readd_alter", "hand"), ("readd_rebuild", "hand"), ("recreate_table", 
          ("rebuild_then_drop", "atlas"), ("rename_drop", "hand"), ("rename_chain", "hand"), ("rename_first_rebuild", "hand"),
          ("nolint_some", "hand"), ("nolint_some", "atlas"), ("nolint_all", "hand"), ("nolint_wrong", "hand"), ("nolint_file", "hand"),
          ("replace_inplace", "hand"), ("crlf", "hand"), ("crlf", "atlas"), ("drop_virtual_table", "hand"),
+         ("rebuild_then_alter_drop", "hand"), ("rebuild_then_drop_table", "hand"), ("addcol_then_rebuild_omits", "hand"),
          ("bom_destructive_first", "hand"), ("bom_additive_first", "hand"), ("tx_end", "hand"), ("tx_commit", "hand"),
          None]
 
@@ -1109,6 +1159,9 @@ def file_class(ops):
     if len(ops) > 1:
         return "mixed_big" if len(ops) >= 6 else "mixed"
     o = ops[0]
+    if o["op"] == "rebuild_same_table":
+        return "rebuild_same_table:%s%s-then-%s" % ("add-column-the-copy-omits+" if o.get("pre_add") is not None else "",
+                                                     "copy-without-%d-columns" % len(o["cols"]), {None: "nothing", "alter": "drop-column", "drop_table": "drop-table"}[o["then"]])
     if o["op"] == "replace_inplace":
         return "replace_inplace:" + ("more-columns" if o.get("col") is not None else "same-columns")
     if o["op"] == "rebuild_neighbor":
